@@ -5,6 +5,7 @@ import math
 import numpy as np
 from hypothesis import strategies as st
 
+from checks import common as K
 from framework.core import Facet, Violation, sut
 from oracles import reference as ref
 from strategies import data as D
@@ -176,11 +177,12 @@ def builtin_cases(draw, tier):
     exact = draw(st.booleans()) if cost != "GaussianCovCost" else draw(st.sampled_from([False, False, True]))
     scale = draw(st.one_of(st.sampled_from([0.3, 1.0, 0.0, 0.05, 2.0]), st.floats(0.0, 3.0)))
     unit = draw(st.sampled_from([1.0, 1.0, 0.1, 0.01, 10.0]))  # Gaussian costs are negative for small units
+    history = draw(st.sampled_from(K.HISTORIES))
     X, meta = draw(D.structured_matrix(n, p, exact=exact, boundary_positions=(msl, n - msl),
                                        max_spikes=2, max_bumps=2))  # bulk data last (see strategies/data.py)
     if unit != 1.0:
         X = [[v * unit for v in row] for row in X]
-    return {"cost": cost, "msl": msl, "X": X, "penalty_scale": scale}
+    return {"cost": cost, "msl": msl, "X": X, "penalty_scale": scale, "history": history}
 
 
 def check_builtin(case):
@@ -209,11 +211,17 @@ def check_builtin(case):
         (s, e) for (s, e) in undefined if e - s >= msl and (s == 0 or s >= msl)
     ]
     det = PELT(make_cost(case["cost"]), case["penalty_scale"], msl)
+    history = case.get("history")
     try:
         with sut("PELT.fit/predict", allowed=(RuntimeError,)):
+            # the detector / its cost may have a past: an earlier fit of the cost object on wider data, an earlier
+            # predict on the caller's buffer while it held other data (see common.py)
+            if history == "scorer_prefit_wide" and not K.prefit_scorer_wide(det, X):
+                history = None
             det.fit(X)
-            cpts = det.predict(X)["ilocs"].tolist()
-            scores = det.transform_scores(X).to_numpy()
+            Xp = K.used_buffer(det, X, history.endswith("frame")) if history and history.startswith("used_buffer") else X
+            cpts = det.predict(Xp)["ilocs"].tolist()
+            scores = det.transform_scores(Xp).to_numpy()
             penalty = float(det.penalty_)
     except RuntimeError as e:
         if case["cost"] == "GaussianCovCost" and admissible_undefined and "positive definite" in str(e):
@@ -225,7 +233,7 @@ def check_builtin(case):
     def costfn(s, e):
         return float(T[s, e])
 
-    classes = [f"cost={case['cost']}", f"p={p}"]
+    classes = [f"cost={case['cost']}", f"p={p}"] + ([f"history={history}"] if history else [])
     scale = float(np.nanmax(np.abs(T))) + penalty
     tol = 1e-9 * (1.0 + scale)
     # precondition of the property: splitting never increases the cost (on this table)
